@@ -4878,13 +4878,17 @@ class FlowIRConcrete(object):
         else:
             return self._flowir.get(FlowIR.FieldInterface)
 
-    def validate(self, top_level_folders: Optional[List[str]] = None)-> List[experiment.model.errors.FlowIRException]:
+    def validate(self, top_level_folders: Optional[List[str]] = None,
+                 is_primitive: bool = True)-> List[experiment.model.errors.FlowIRException]:
         """Validate a FlowIR definition
 
         args:
             top_level_folders: (optional) a list of names of folders that are in the root-directory of the
                package/instance
-        
+            is_primitive: whether this is the primitive (unreplicated) form of the workflow. In the primitive form
+               the `replica` variable cannot be known. In the replicated form every replica defines it, so a
+               component that still cannot resolve `replica` is using an undefined variable
+
         Returns
             A list of FlowIRExceptions
         """
@@ -4916,7 +4920,7 @@ class FlowIRConcrete(object):
                 #     components have just bindings, name, stage, and import fields)
                 if '$import' not in comp:
                     comp = self.get_component_configuration(
-                        comp_id, include_default=True, is_primitive=True, raw=False)
+                        comp_id, include_default=True, is_primitive=is_primitive, raw=False)
             except Exception as e:
                 out_errors.append(experiment.model.errors.FlowIRInconsistency(
                     reason=f"unable to get the component definition for component {comp_ref}",
